@@ -150,6 +150,16 @@ func (c02) Build(tier string, seed uint64) []any {
 			cs = append(cs, &imgCase{Gen: "long", W: 1, H: 65535, C: 1, P: p, Sel: sel, Class: gen.Pick(r, "noise", "runs", "altext"), CSeed: r.U64()})
 		}
 	}
+	// (area)
+	for j, g := range areaSizes(th, seed) {
+		for k, sel := range []int{1, 4, 7, selSV1, 0} {
+			if !th && (j+k+int(seed))%2 == 0 {
+				continue
+			}
+			r := gen.Sub(seed, "C02", "area", j*10+k)
+			cs = append(cs, &imgCase{Gen: "area", W: g[0], H: g[1], C: gen.Pick(r, 1, 3), P: gen.Pick(r, 8, 12, 16), Sel: sel, Class: gen.Pick(r, "noise", "smooth", "runs"), CSeed: r.U64()})
+		}
+	}
 	return cs
 }
 
